@@ -74,6 +74,11 @@ FIXED += [
   'Pack("link-to-dir/") returned success with an empty slug'),
 ]
 
+FIXED += [
+ ("C17", "fault-free-build-failed", "fix: a registry package whose newest allowed version is 0.0.0 can be selected",
+  'a registry package offering only version 0.0.0 (allowed set: all) failed with "no available version matches"'),
+]
+
 OPEN = [
  ("C04", "dotdot-after-symlink-component",
   'a link whose target applies ".." after a component that is itself a symlink in dst (e.g. "d/l -> .." together with "m -> d/l/../secret", in either order) is accepted because targets are validated lexically; the operating system resolves m to a location outside dst. No entry can be written through such a link any more (see the fixed C01 entries), but the link itself remains'),
